@@ -510,6 +510,17 @@ def race_cmds(rng, tier):
     cmds.append((["--records-per-batch", "1", "repeat", "-n", "3", "then", "put", "$i = NR", "then", "sec2gmt", "i", "then", "uniq", "-g", "id,i"], med, {}))
     cmds.append((["--records-per-batch", "2", "--icsv", "--opprint", "--barred", "cat", "then", "sort-within-records", "-r", "then", "unsparsify"],
                  gen.csv_simple([[("id", f"r{k}"), ("a", "x"), ("b", str(k))] for k in range(700)]), {}))
+    # Twin sweep (added after seeded change C04r2-b, a package-level buffer shared by every grouping verb): each catalogue
+    # verb V runs as `V then V` and behind a streaming grouping verb, so that two instances of the same code -- and any
+    # process-global state they share -- are live in two goroutines at once under the race detector.
+    twin_in = gen.dkvp(gen.records(rng, 400 if tier == "quick" else 1500, ragged=0.1))
+    seen = set()
+    for v, tags in gen.verb_catalogue(rng):
+        if "P" in tags or v[0] in ("seqgen", "nothing", "tee") or tuple(v) in seen:
+            continue
+        seen.add(tuple(v))
+        cmds.append((["--records-per-batch", "2"] + v + ["then"] + v, twin_in, {}))
+        cmds.append((["--records-per-batch", "1", "step", "-a", "shift", "-f", "i", "-g", "a,b", "then"] + v, twin_in, {}))
     return cmds
 
 
